@@ -400,6 +400,22 @@ def ctor_class_convention(ctx):
                             if ref.maxdiff(got, rf(r, p, y)) > TOL:
                                 ctx.fail(cid, site, 'mismatch', dict(P, what='convention', j=j), 'value %d differs from the documented product by %.3g' % (j, ref.maxdiff(got, rf(r, p, y))))
                                 break
+                        if N > 1:
+                            # extraction from the multi-valued object: one triple per value (rows or columns), triple j rebuilds value j
+                            exn = 'rpy' if order else 'eul'
+                            xs = site_of(cn, exn)
+                            ok, a = call(getattr(X, exn), **kw)
+                            if not ok:
+                                ctx.fail(cid, xs, 'raises:' + type(a).__name__, dict(P, what='multi'), '%s() of %d values raised %r' % (exn, N, a))
+                                continue
+                            a = np.asarray(a, dtype=float)
+                            lay = ([a] if a.shape == (N, 3) else []) + ([a.T] if a.shape == (3, N) else [])
+                            if not lay:
+                                ctx.fail(cid, xs, 'mismatch', dict(P, what='multi-shape'), '%s() of %d values has shape %s' % (exn, N, a.shape))
+                                continue
+                            worst = min(max(ref.maxdiff(rf(*(L[j] / k)), np.asarray(X.data[j])[:3, :3]) for j in range(N)) for L in lay)
+                            if not worst <= TOL:
+                                ctx.fail(cid, xs, 'mismatch', dict(P, what='multi-rebuild'), '%s() of %d values: triple j does not rebuild value j (worst %.3g)' % (exn, N, worst))
 
 
 def cube_rotations():
